@@ -498,6 +498,8 @@ class Typer(object):
         if isinstance(e, ast.UnaryOp):
             return self.expr_type(e.operand, fi, env, depth + 1)
         if isinstance(e, ast.Lambda):
+            if getattr(e, "_fi", None) is not None:
+                return T(prims=["callable"], funcs=[e._fi])
             return T(prims=["callable"])
         if isinstance(e, ast.Starred):
             return self.expr_type(e.value, fi, env, depth + 1)
